@@ -281,6 +281,19 @@ def rule_driver(program, ctx):
         ctx.ok(rid, init, "Periodic(..., swallow_exceptions=True): a failing pass does not end the collector")
     else:
         ctx.bad(finding_func(P, rid, init, "the collector no longer swallows exceptions per pass: one failure ends garbage collection for good", text="def __init__(...) :: swallow"))
+    # defaults first, keyword options last: KVGarbageCollector passes async_transaction=False through kwargs
+    sets = [s for s in init.body if isinstance(s, ast.Assign) and dotted(s.targets[0]) == "self.async_transaction"]
+    loop = next((l for l in init.body if isinstance(l, ast.For) and "kwargs" in ast.unparse(l.iter) and any(isinstance(c, ast.Call) and call_name(c) == "setattr" for c in ast.walk(l))), None)
+    if sets and loop is not None and all(init.body.index(s) < init.body.index(loop) for s in sets):
+        ctx.ok(rid, loop, "keyword options are applied after the defaults (async_transaction=False of the LMDB collector survives)")
+    else:
+        ctx.bad(finding_func(P, rid, init, "BaseGarbageCollector.__init__ applies its defaults after the keyword options: the LMDB collector's async_transaction=False is overwritten, "
+                             "run_once enters `async with` on an LMDB transaction, raises TypeError (swallowed) and nothing is ever collected", text="def __init__(...) :: option order"))
+    kinit = program.func("nostr_relay.storage.kv:KVGarbageCollector.__init__")
+    if any(isinstance(c, ast.Call) and any(k.arg == "async_transaction" and isinstance(k.value, ast.Constant) and k.value.value is False for k in c.keywords) for c in ast.walk(kinit)):
+        ctx.ok(rid, kinit, "KVGarbageCollector passes async_transaction=False")
+    else:
+        ctx.bad(finding_func(P, rid, kinit, "KVGarbageCollector no longer selects the synchronous transaction form", text="def __init__(...) :: async_transaction"))
     ro = program.func("nostr_relay.storage.base:BaseGarbageCollector.run_once")
     if sum(1 for w in ast.walk(ro) if isinstance(w, (ast.With, ast.AsyncWith)) and "self.storage.db.begin()" in ast.unparse(w.items[0].context_expr)) >= 1:
         ctx.ok(rid, ro, "collect() runs inside storage.db.begin()")
@@ -288,7 +301,31 @@ def rule_driver(program, ctx):
         ctx.bad(finding_func(P, rid, ro, "collect() no longer runs inside the storage's transaction", text="def run_once(...)"))
 
 
+def rule_index(program, ctx):
+    rid = ctx.rule(
+        "C17.index",
+        "the collectors find expiring events only through the tag index: DBStorage.process_tags and TagIndex.convert iterate the whole `event.tags` (no slice, cap or "
+        "early exit) and index every tag named 'expiration'",
+        floor=2,
+    )
+    for q in ("nostr_relay.storage.db:DBStorage.process_tags", "nostr_relay.storage.kv:TagIndex.convert"):
+        fn = program.func(q)
+        loops = [l for l in walk_no_nested(fn) if isinstance(l, ast.For) and "tags" in ast.unparse(l.iter) and "event" in ast.unparse(l.iter)]
+        idx = [l for l in loops if "expiration" in ast.unparse(l)]
+        if not idx:
+            ctx.bad(finding_func(P, rid, fn, f"{fn.name} no longer indexes 'expiration' tags", text=f"def {fn.name}(...) :: expiration"))
+            continue
+        l = idx[0]
+        if ast.unparse(l.iter) != "event.tags":
+            ctx.bad(finding_at(P, rid, l, f"{fn.name} indexes only `{ast.unparse(l.iter)}`, not every tag: an expiration tag outside that range gets no index entry and the event is never collected"))
+        elif any(isinstance(b, (ast.Break, ast.Return)) for b in ast.walk(l)):
+            ctx.bad(finding_at(P, rid, l, f"{fn.name} can stop indexing before the last tag"))
+        else:
+            ctx.ok(rid, l, f"{fn.name}: every tag of event.tags is considered, 'expiration' included")
+
+
 def run(program, ctx):
+    rule_index(program, ctx)
     rule_range(program, ctx)
     rule_sources(program, ctx)
     rule_order(program, ctx)
